@@ -3,7 +3,8 @@
  * Unit style: src/backend.c is #included so that the REAL static `heartbeat_timer_callback` (run by the real
  * lib/port timer thread) and the REAL static `call_heart_beat` (run by this thread, as backend() does when it
  * sees the flag) are reachable.  The driver is not initialised: with timer_flags == 0 call_heart_beat only
- * clears the flag and reads the clock.  Command:  hbrace <ms>   ->  `hbrace <ms> done` (+ `race ...` lines)
+ * clears the flag and reads the clock.  Commands:  hbrace <ms>   ->  `hbrace <ms> done` (+ `race ...` lines)
+ *                                                 hbowed        ->  `hbowed kept` (see below)
  */
 #include "src/backend.c"
 #include "src/stem.h"
@@ -59,6 +60,70 @@ static void relay_races (const char *path)
         }
   for (int i = 0; i < nseen; i++)
     printf ("race %s\n", seen[i]);
+}
+
+/* `hbowed`: a tick that arrives INSIDE call_heart_beat must still be owed when it returns.
+ * call_heart_beat reads the clock (`time (&current_time)`) right behind its first statement; time() is interposed in
+ * this executable and, when armed, runs the REAL heartbeat_timer_callback at that point - a tick landing in the round,
+ * deterministically, on the calling thread (no timing, no second thread).  With `SET_HEART_BEAT_FLAG(0)` as the first
+ * statement the flag is set again by that tick, the round (`while (!HEART_BEAT_FLAG())`) is cut short and the flag is
+ * still set on return: `hbowed kept`.  A clear behind the round wipes it: `hbowed swallowed`. */
+static int inject_tick;
+
+time_t time (time_t * t)
+{
+  struct timespec ts;
+  clock_gettime (CLOCK_REALTIME, &ts);
+  if (inject_tick)
+    {
+      inject_tick = 0;
+      heartbeat_timer_callback ();
+    }
+  if (t)
+    *t = ts.tv_sec;
+  return ts.tv_sec;
+}
+
+static void hbowed (FILE * out)
+{
+  static program_t prog;
+  static object_t ob;
+  static heart_beat_t hbs[3];
+  int kept, saved_flags = MAIN_OPTION (timer_flags);
+  memset (&prog, 0, sizeof prog);
+  memset (&ob, 0, sizeof ob);
+  prog.heart_beat = -1;		/* never calls into the interpreter */
+  ob.prog = &prog;
+  for (int i = 0; i < 3; i++)
+    hbs[i].ob = &ob, hbs[i].heart_beat_ticks = 5, hbs[i].time_to_heart_beat = 5;
+  heart_beats = hbs;
+  num_hb_objs = 3;
+  MAIN_OPTION (timer_flags) = TIMER_FLAG_HEARTBEAT;
+#ifdef HEART_BEAT_FLAG
+  SET_HEART_BEAT_FLAG (1);
+#else
+  heart_beat_flag = 1;
+#endif
+  inject_tick = 1;
+  call_heart_beat ();
+#ifdef HEART_BEAT_FLAG
+  kept = HEART_BEAT_FLAG ();
+#else
+  kept = heart_beat_flag;
+#endif
+  if (inject_tick)
+    fprintf (out, "hbowed not-injected\n");	/* call_heart_beat no longer reads the clock: the harness must be adapted */
+  else
+    fprintf (out, "hbowed %s\n", kept ? "kept" : "swallowed");
+  inject_tick = 0;
+  heart_beats = 0;
+  num_hb_objs = 0;
+  MAIN_OPTION (timer_flags) = saved_flags;
+#ifdef HEART_BEAT_FLAG
+  SET_HEART_BEAT_FLAG (0);
+#else
+  heart_beat_flag = 0;
+#endif
 }
 
 static void hbrace (int ms, FILE * out)
@@ -137,6 +202,8 @@ int main (int argc, char **argv)
           for (int i = 0; i < ncmd; i++)
             if (!strncmp (cmds[i], "hbrace ", 7))
               hbrace (atoi (cmds[i] + 7), out);
+            else if (!strcmp (cmds[i], "hbowed"))
+              hbowed (out);
             else if (cmds[i][0] != '#')
               fprintf (out, "badcmd %s\n", cmds[i]);
           fflush (out);
